@@ -63,4 +63,11 @@ pub broadcast axiom fn axiom_recs_trim(s: Seq<char>, t: Seq<char>)
 pub uninterp spec fn ws_only(t: Seq<char>) -> bool;
 pub broadcast axiom fn axiom_ws_lf() ensures #[trigger] ws_only("\n"@);
 
+/// R22 `v.dedup();` -> `verif_dedup(&mut v);`: removes consecutive repeated elements; here only 'some sequence no longer than the input' (an uninterpreted function of it)
+pub uninterp spec fn dedup_of<T>(s: Seq<T>) -> Seq<T>;
+#[verifier::external_body]
+pub fn verif_dedup<T: PartialEq>(v: &mut Vec<T>)
+    ensures final(v)@ == dedup_of(old(v)@), final(v)@.len() <= old(v)@.len()
+{ unimplemented!() }
+
 } // verus!
